@@ -139,7 +139,7 @@ def gen_case(rng, malformed=False, padded=False):
             tab = [rng.choice([4, 4, 3, 3, 1, 2]) for _ in range(rng.choice([0, 1, 2, 3, 5]))]
             ops.append(['cpoll', limit, rng.randrange(0, 7), tab])
         elif r < 0.70:
-            ops.append(['block', rng.choice([0, 32, 64, 96, 128, 1000, 65536, -1])])
+            ops.append(['block', rng.choice([0, 32, 64, 96, 128, 1000, 65536, -1, MAXI, MAXI, 2**31 - 65536, 2**30])])
         elif r < 0.86:
             ops.append(['grow', rng.randrange(nslots), rng.choice([1, 1, 2, 3, 100])])
         elif r < 0.93:
@@ -211,7 +211,7 @@ def gen_bb(rng):
         elif r < 0.85:
             ops.append(['reset'])
         else:
-            ops.append(['setlimit', rng.choice([MAXI, MAXI, MAXI, 0, 31, 32, 33, 64, 100, 4096, 10**6, rng.randrange(0, 8000)])])
+            ops.append(["setlimit", rng.choice([MAXI, MAXI, MAXI, 0, 31, 32, 33, 64, 100, 4096, 6000, rng.randrange(0, 8000)])])
     return {'kind': 'bb', 'initial': initial, 'ops': ops}
 
 
@@ -278,9 +278,15 @@ def generate(rng, tier):
         cases += find_cases()
     for i in range(n):
         cases.append(gen_case(rng, malformed=(i % 8 == 5), padded=(i % 8 in (2, 6))))
-    for i in range(n // 6):
-        cases.append(gen_bb(rng))
-    return cases
+    bbs = [gen_bb(rng) for i in range(n // 6)]
+    # spread the builder cases (the most expensive ones to evaluate) evenly, so that the evaluation shards are balanced
+    step = max(1, len(cases) // max(1, len(bbs)))
+    out = []
+    for i, c in enumerate(cases):
+        out.append(c)
+        if i % step == step - 1 and bbs:
+            out.append(bbs.pop())
+    return out + bbs
 
 
 def impl_line(c):
